@@ -688,7 +688,7 @@ class C14(Check):
                   'after the buffered events have been served; a ready registered socket that the (fair) epoll reports and no callback removes or suspends is '
                   'dispatched within a bounded number of iterations; the timer and closing phases of an iteration terminate with explicit fuel bounds and run() '
                   'is never cut off by fuel once the fuel is large enough - a statement about the proof device and the FINITE epoll script of the model, whose exhaustion '
-                  'injects an interrupt from another thread; it is not a claim that Server::run returns by itself (36 theorems, closed under the global context). '
+                  'injects an interrupt from another thread; it is not a claim that Server::run returns by itself (37 theorems, closed under the global context). '
                   'The model is tied to the code by running the extracted model and the real Server (ASan/UBSan build of the working tree, '
                   'kernel simulated by symbol interposition, private state of Server and Socket::Poll - pools, timer queue, closing set, selected events - '
                   'read for the state lines) on the same histories, line by line; six extracted monitors (timers, life times/registrations/kinds, closed clause at text '
